@@ -116,7 +116,7 @@ CopyCircEv(e) ==
 ApplyEv(e) ==
   LET c == e.c
       H == heap
-      pre == Subtree(H, c)
+      pre == IF c \in DOMAIN H THEN Subtree(H, c) ELSE {}
       newIds == {e.new[j].id : j \in 1..Len(e.new)}
       N(i) == e.new[CHOOSE j \in 1..Len(e.new) : e.new[j].id = i]
       inst(i) == IF i \in newIds THEN N(i).inst ELSE 0
@@ -153,10 +153,12 @@ ApplyEv(e) ==
                ELSE IF i \in newIds
                     THEN [H[N(i).origin] EXCEPT !.link = LinkAfter(i), !.home = tree[i].home, !.kids = tree[i].kids, !.rep = <<"fixed", 1>>]
                     ELSE [H[i] EXCEPT !.kids = tree[i].kids, !.rep = <<"fixed", 1>>]]
-      preLeaves == Range(LeavesOf(H, c))
+      preLeaves == IF c \in DOMAIN H THEN Range(LeavesOf(H, c)) ELSE {}
       appended == {i \in newIds : tree[i].home = tree[from(i)].home /\ H2[i].link.k = "multi"}
-      wellformedNew == \A j \in 1..Len(e.new) : e.new[j].origin \in pre /\ e.new[j].from \in DOMAIN tree /\ e.new[j].id \in DOMAIN tree
-      cl == IF ~wellformedNew THEN {Fail("C06.origin", c, <<"new objects without a source in the circuit">>)}
+      wellformedNew == /\ c \in DOMAIN H
+                       /\ \A j \in 1..Len(e.new) : e.new[j].origin \in pre /\ e.new[j].from \in DOMAIN tree /\ e.new[j].id \in DOMAIN tree
+                       /\ \A i \in DOMAIN tree : i \in newIds \/ i \in pre            \* nothing in the circuit the specification has never seen
+      cl == IF ~wellformedNew THEN {Fail("C06.origin", c, <<"after apply_modifiers the circuit holds objects that are neither known nor copies of known ones">>)}
             ELSE
             When(e.same_structure, Fail("C06.inplace", c, <<>>))
             \cup UNION {When(i \in DOMAIN tree /\ tree[i].home = H[i].home,
